@@ -5,10 +5,11 @@
 
    Partial (names end in _partial) or refuted (…_refuted) clauses are the ones
    the faithful model of lungo does not satisfy in full; see DESIGN.md 7.11/9. *)
-From Coq Require Import List ZArith QArith String.
+From Coq Require Import List ZArith QArith String Permutation Sorted.
 From Lungo.Model Require Import Apply.
 From Lungo.Gen Require Import UpdateOps.
-From Lungo.Proofs Require Import AccessAlgebra ApplyProofs ArithProofs GenUpdateOps.
+From Lungo.Spec Require Import RefUpdate.
+From Lungo.Proofs Require Import AccessAlgebra ApplyProofs ArithProofs GenUpdateOps RefUpdateProofs.
 Import ListNotations.
 Open Scope string_scope.
 Open Scope Z_scope.
@@ -156,6 +157,70 @@ Proof. exact (noop_reports_unchanged _). Qed.
 Print Assumptions C11_noop_reports_unchanged.
 
 (* ------------------------------------------------------------------ *)
+(* reference semantics (Spec/RefUpdate.v) of the array operators and $rename
+   on a plain path.  Partial: the other operators have no separate reference
+   specification (their model IS the short statement), and a whole-update
+   reference interpreter (apply_ref) is not provided. *)
+
+(* $addToSet adds exactly the values not BSON-equal to a member, each once *)
+Theorem C11_ref_add_to_set_partial : forall d ch ps v vals arr d' ch',
+  canon_path (split_path ps) -> add_to_set_arg v = Ok vals -> current_array (Get d ps) arr ->
+  apply_add_to_set (d, ch) ps v = Ok (d', ch') ->
+  exists res, add_to_set_spec arr vals res /\
+    ((res = arr /\ d' = d /\ ch' = ch) \/
+     (Get d' ps = VArr res /\ ch' = (ch ++ [(ps, VArr res)])%list)).
+Proof. exact apply_add_to_set_ref. Qed.
+Print Assumptions C11_ref_add_to_set_partial.
+
+(* $pull (plain value) removes exactly the BSON-equal elements *)
+Theorem C11_ref_pull_partial : forall m d ch ps cond arr d' ch',
+  canon_path (split_path ps) -> (forall cd, cond <> VDoc cd) -> Get d ps = VArr arr ->
+  apply_pull m (d, ch) ps cond = Ok (d', ch') ->
+  let kept := filter (fun x => negb (is_eq (compare x cond))) arr in
+  pull_spec (fun x => is_eq (compare x cond)) arr kept /\
+  ((existsb (fun x => is_eq (compare x cond)) arr = false /\ d' = d /\ ch' = ch) \/
+   (Get d' ps = VArr kept /\ ch' = (ch ++ [(ps, VArr kept)])%list)).
+Proof. exact apply_pull_ref. Qed.
+Print Assumptions C11_ref_pull_partial.
+
+Theorem C11_ref_pull_all_partial : forall d ch ps targets arr d' ch',
+  canon_path (split_path ps) -> Get d ps = VArr arr ->
+  apply_pull_all (d, ch) ps (VArr targets) = Ok (d', ch') ->
+  let kept := filter (fun x => negb (mem_cmp x targets)) arr in
+  pull_spec (fun x => mem_cmp x targets) arr kept /\
+  ((len kept = len arr /\ d' = d /\ ch' = ch) \/
+   (Get d' ps = VArr kept /\ ch' = (ch ++ [(ps, VArr kept)])%list)).
+Proof. exact apply_pull_all_ref. Qed.
+Print Assumptions C11_ref_pull_all_partial.
+
+(* $push with $each/$position/$sort/$slice = slice (sort (insert_at position)) *)
+Theorem C11_ref_push_partial : forall d ch ps each p dir n arr d' ch',
+  canon_path (split_path ps) -> Get d ps = VArr arr ->
+  - two63 < n < two63 -> len arr + len each < two63 ->
+  apply_push (d, ch) ps
+    (VDoc [("$each", VArr each); ("$position", VInt64 p); ("$sort", VInt32 dir); ("$slice", VInt64 n)]) = Ok (d', ch') ->
+  exists sorted,
+    stable_sort_spec (dir_le dir) (ref_insert (Some p) each arr) sorted /\
+    Get d' ps = VArr (ref_slice (Some n) sorted) /\
+    ch' = (ch ++ [(ps, VArr (ref_slice (Some n) sorted))])%list.
+Proof. exact apply_push_ref. Qed.
+Print Assumptions C11_ref_push_partial.
+
+(* $rename moves the value, removes the source, touches nothing else *)
+Theorem C11_ref_rename_partial : forall d ch olds news v d' ch',
+  uniq_keys (VDoc d) ->
+  field_path (split_path olds) -> field_path (split_path news) ->
+  disjoint (split_path olds) (split_path news) ->
+  Get d olds = v -> v <> VMissing ->
+  apply_rename (d, ch) olds (VString news) = Ok (d', ch') ->
+  Get d' news = v /\ Get d' olds = VMissing /\
+  (forall qs, disjoint (split_path olds) (split_path qs) -> disjoint (split_path news) (split_path qs) ->
+              Get d' qs = Get d qs) /\
+  ch' = (ch ++ [(olds, VMissing); (news, v)])%list.
+Proof. exact apply_rename_ref. Qed.
+Print Assumptions C11_ref_rename_partial.
+
+(* ------------------------------------------------------------------ *)
 (* numeric rules *)
 
 Theorem C11_add_type : forall a b r,
@@ -247,6 +312,19 @@ Example C11_ex_rejected_as_a_whole :
   Apply ex_doc [] [("$inc", VDoc [("a", VInt64 1)]); ("$push", VDoc [("b", VDoc [("$each", VArr [VInt32 0]); ("$sort", VInt32 1); ("$slice", VInt32 3)])])] false [] 0 =
   Ok ([("a", VInt64 2); ("b", VArr [VInt32 0; VInt32 1; VInt32 2]); ("c", VDoc [("x", VInt32 5)])],
       [("a", VInt64 2); ("b", VArr [VInt32 0; VInt32 1; VInt32 2])]).
+Proof. vm_compute. repeat split; reflexivity. Qed.
+
+Example C11_ex_push_modifiers :
+  Apply ex_doc [] [("$push", VDoc [("b", VDoc [("$each", VArr [VInt32 0; VInt32 9]); ("$position", VInt64 1);
+                                             ("$sort", VInt32 (-1)); ("$slice", VInt64 (-3))])])] false [] 0 =
+  Ok ([("a", VInt32 1); ("b", VArr [VInt32 2; VInt32 1; VInt32 0]); ("c", VDoc [("x", VInt32 5)])],
+      [("b", VArr [VInt32 2; VInt32 1; VInt32 0])]) /\
+  Apply ex_doc [] [("$rename", VDoc [("c.x", VString "y")])] false [] 0 =
+  Ok ([("a", VInt32 1); ("b", VArr [VInt32 1; VInt32 2; VInt32 2]); ("c", VDoc []); ("y", VInt32 5)],
+      [("c.x", VMissing); ("y", VInt32 5)]) /\
+  Apply ex_doc [] [("$addToSet", VDoc [("b", VDoc [("$each", VArr [VInt64 2; VDouble 4613937818241073152; VInt32 3])])])] false [] 0 =
+  Ok ([("a", VInt32 1); ("b", VArr [VInt32 1; VInt32 2; VInt32 2; VDouble 4613937818241073152]); ("c", VDoc [("x", VInt32 5)])],
+      [("b", VArr [VInt32 1; VInt32 2; VInt32 2; VDouble 4613937818241073152])]).
 Proof. vm_compute. repeat split; reflexivity. Qed.
 
 Example C11_ex_numeric :
